@@ -192,7 +192,10 @@ func CompleteResponse(id datatransfer.TransferID, isAccepted bool, isPaused bool
 
 // FromNet can read a network stream to deserialize a GraphSyncMessage
 func FromNet(r io.Reader) (datatransfer.Message, error) {
-	tm, err := bindnodeRegistry.TypeFromReader(r, &TransferMessage1_1{}, dagcbor.Decode)
+	// read exactly one message from the stream: the default dagcbor.Decode insists that
+	// nothing follows the decoded item, which fails every message but the last when a
+	// peer writes several messages on one stream
+	tm, err := bindnodeRegistry.TypeFromReader(r, &TransferMessage1_1{}, dagcbor.DecodeOptions{AllowLinks: true, DontParseBeyondEnd: true}.Decode)
 	if err != nil {
 		return nil, err
 	}
